@@ -43,7 +43,7 @@ func (o OptSet) Symbolic() string {
 	if o.Plugin {
 		s = append(s, "-p", "rec=<c07plugin>")
 	}
-	return strings.Join(append(s, "<idl>/main.thrift"), " ")
+	return strings.Join(append(s, "<idl>/<main>.thrift"), " ")
 }
 
 var optSets = []OptSet{
@@ -458,5 +458,65 @@ func shrink(t Tools, p Prog, o OptSet, want *Diff, dir string, runs int, budget 
 			}
 		}
 	}
+	// members of struct-likes, enums and services, one at a time
+	for fi := 0; fi < len(p.Files); fi++ {
+		for li := 0; li < len(p.Files[fi].Lines); li++ {
+			for {
+				l := p.Files[fi].Lines[li]
+				open, close, elems := members(l)
+				changed := false
+				for k := len(elems) - 1; k >= 0 && len(elems) > 1; k-- {
+					rest := append(append([]string(nil), elems[:k]...), elems[k+1:]...)
+					q := p.Clone()
+					q.Files[fi].Lines[li] = l[:open+1] + " " + strings.Join(rest, ", ") + " " + l[close:]
+					if d := try(q, o); d != nil {
+						p, best, changed = q, d, true
+						break
+					}
+				}
+				if !changed {
+					break
+				}
+			}
+		}
+	}
 	return p, o, best, tests
+}
+
+// members splits the body of the first top-level { … } of a definition line at top-level commas.
+func members(l string) (open, close int, elems []string) {
+	open = strings.Index(l, "{")
+	if open < 0 || strings.HasPrefix(l, "const ") {
+		return 0, 0, nil
+	}
+	depth, inStr, start := 0, false, open+1
+	for i := open; i < len(l); i++ {
+		c := l[i]
+		if inStr {
+			if c == '"' {
+				inStr = false
+			}
+			continue
+		}
+		switch c {
+		case '"':
+			inStr = true
+		case '{', '(', '[', '<':
+			depth++
+		case '}', ')', ']', '>':
+			depth--
+			if depth == 0 {
+				if e := strings.TrimSpace(l[start:i]); e != "" {
+					elems = append(elems, e)
+				}
+				return open, i, elems
+			}
+		case ',':
+			if depth == 1 {
+				elems = append(elems, strings.TrimSpace(l[start:i]))
+				start = i + 1
+			}
+		}
+	}
+	return 0, 0, nil
 }
